@@ -82,3 +82,7 @@ func badAliasInLoop(n int) [][]byte {
 	_ = keep
 	return nil
 }
+
+type holder struct{ f func() int }
+
+func badFuncField(h holder) int { return h.f() }
